@@ -100,6 +100,21 @@ class _C18(Spec):
                 x = (rng.randrange(86400) + rng.choice([0.5, 0.49999, 0.50001, 0.98, 0.99, 0.01])) / 3600.0
             if 0 <= x < 24:
                 freqs.append("tod fh %d" % _bits(x))
+        # the doubles no arithmetic sweep produces: negative zero (a member of [0,24): -0.0 == 0), the subnormals, the
+        # neighbours of every whole hour and of 24, powers of two down to the smallest, values with one mantissa bit
+        special = [-0.0, 0.0, 5e-324, 2.2250738585072014e-308, 2.225073858507201e-308, 1e-300, 1e-17, 1e-9, 24 - 2 ** -48, 23.999999999999996]
+        for k in range(0, 1075, 1 if tier == "thorough" else 5):
+            special.append(2.0 ** -k)
+            special.append(24 - 2.0 ** -min(k, 48))
+            special.append(-0.0 * 2.0 ** -k)
+        for hr in range(0, 25):
+            b = _bits(float(hr)) if hr else 0
+            for db in (-2, -1, 0, 1, 2):
+                if b + db >= 0:
+                    special.append(struct.unpack("<d", struct.pack("<Q", b + db))[0])
+        for x in special:
+            if 0 <= x < 24:    # true of -0.0
+                freqs.append("tod fh %d" % _bits(x))
         sts.append(Stream("tod-floats", freqs, compare=self.compare_default))
         return sts
 
